@@ -18,6 +18,7 @@
 #include <stdint.h>
 #include <stddef.h>
 
+#if defined (__CPROVER__) || defined (VERIF_CBMC)
 int            nondet_int (void) ;
 unsigned       nondet_uint (void) ;
 short          nondet_short (void) ;
@@ -28,6 +29,38 @@ int64_t        nondet_i64 (void) ;
 uint64_t       nondet_u64 (void) ;
 float          nondet_float (void) ;
 double         nondet_double (void) ;
+/* fill an array whose name starts with nd_ with fresh symbolic values */
+#define ND_FILL(arr, n, T)	do { int nd_i_ ; for (nd_i_ = 0 ; nd_i_ < (int) (n) ; nd_i_ ++) (arr) [nd_i_] = nondet_ ## T () ; } while (0)
+#else
+/* REPLAY: values are looked up by source position (scalars: one nondet_T () per source
+** line, FIFO per line) or by element name (ND_FILL), so values the solver sliced away
+** (irrelevant to the counterexample) simply read as 0 and nothing desynchronises. */
+uint64_t vf_nd (const char *file, int line, int width) ;
+uint64_t vf_nd_elem (const char *name, int idx, int width) ;
+float    vf_bits2f (uint64_t b) ;
+double   vf_bits2d (uint64_t b) ;
+#define nondet_int()	((int) (uint32_t) vf_nd (__FILE__, __LINE__, 32))
+#define nondet_uint()	((unsigned) vf_nd (__FILE__, __LINE__, 32))
+#define nondet_short()	((short) (uint16_t) vf_nd (__FILE__, __LINE__, 16))
+#define nondet_ushort()	((unsigned short) vf_nd (__FILE__, __LINE__, 16))
+#define nondet_schar()	((signed char) (uint8_t) vf_nd (__FILE__, __LINE__, 8))
+#define nondet_uchar()	((unsigned char) vf_nd (__FILE__, __LINE__, 8))
+#define nondet_i64()	((int64_t) vf_nd (__FILE__, __LINE__, 64))
+#define nondet_u64()	((uint64_t) vf_nd (__FILE__, __LINE__, 64))
+#define nondet_float()	(vf_bits2f (vf_nd (__FILE__, __LINE__, 32)))
+#define nondet_double()	(vf_bits2d (vf_nd (__FILE__, __LINE__, 64)))
+#define VF_CONV_int(b)		((int) (uint32_t) (b))
+#define VF_CONV_uint(b)		((unsigned) (b))
+#define VF_CONV_short(b)	((short) (uint16_t) (b))
+#define VF_CONV_ushort(b)	((unsigned short) (b))
+#define VF_CONV_schar(b)	((signed char) (uint8_t) (b))
+#define VF_CONV_uchar(b)	((unsigned char) (b))
+#define VF_CONV_i64(b)		((int64_t) (b))
+#define VF_CONV_u64(b)		((uint64_t) (b))
+#define VF_CONV_float(b)	(vf_bits2f (b))
+#define VF_CONV_double(b)	(vf_bits2d (b))
+#define ND_FILL(arr, n, T)	do { int nd_i_ ; for (nd_i_ = 0 ; nd_i_ < (int) (n) ; nd_i_ ++) (arr) [nd_i_] = VF_CONV_ ## T (vf_nd_elem (#arr, nd_i_, (int) (8 * sizeof ((arr) [0])))) ; } while (0)
+#endif
 
 #if defined (__CPROVER__) || defined (VERIF_CBMC)
 
